@@ -504,7 +504,7 @@ func init() {
 	fw.Register(&fw.Property{
 		ID:          "C07",
 		Level:       "exploration",
-		Rule:        "seeded commit DAGs of 1..12 commits whose tables derive from one another by small edits (shared blocks, identical tables on several commits, 1..3-block tables); send set = closed parent-first list from the graph model or the list ClosedSetsFinder produced; common commits fully present at the destination plus an arbitrary subset of the remaining blocks and complete tables; max packfile size in {1, 2, 100, 1 KiB, 64 KiB, default}; loop WriteObjects -> PackfileReader -> Receive until done; oracle: key->bytes snapshots of both stores (byte-identical commits, tables, blocks, block indices, table index; profile rebuilt), structural monitor on every received table, cross-store diff empty, recorded (type,sum) stream ordered blocks-before-table and parents-before-child; hostile half: a commit moved before its parent / a table before one of its blocks must be refused and leave nothing half-visible; distinct_nontrivial = distinct (pack class, history size, send size, packfile count, seed)",
+		Rule:        "seeded commit DAGs of 1..12 commits whose tables derive from one another by small edits (shared blocks, identical tables on several commits, 1..3-block tables); send set = closed parent-first list from the graph model or the list ClosedSetsFinder produced; common commits fully present at the destination plus an arbitrary subset of the remaining blocks and complete tables; max packfile size in {1, 2, 100, 1 KiB, 64 KiB, default}; loop WriteObjects -> PackfileReader -> Receive until done; oracle: key->bytes snapshots of both stores (byte-identical commits, tables, blocks, block indices, table index; profile rebuilt), structural monitor on every received table, cross-store diff empty, recorded (type,sum) stream ordered blocks-before-table and parents-before-child; hostile half: a commit moved before its parent / a table before one of its blocks must be refused and leave nothing half-visible; a packfile cut inside an object body must be refused or, if the transfer is accepted to the end, leave nothing missing; distinct_nontrivial = distinct (pack class, history size, send size, packfile count, seed)",
 		Assumptions: []string{"in-memory transport (HTTP framing is C09/C18)", "tables of common commits are complete at the destination (the sender's precondition)"},
 		Gen: func(tier string, seed int64) []fw.Case {
 			l := fw.NewCaseList("C07", tier, seed)
